@@ -881,6 +881,24 @@ def run(prog, rep, tier):
         rep.violation(R816, fb_.path + "|candidate-set|early-return", "filesz_to_types can return the candidate layouts before all by-size tests ran (when the file name already suggested a fitting layout); "
                       "a Linux wtmp whose record count is divisible by 5 or 19 also fits the hinted 40- or 304-byte BSD layouts and is then decoded with those - garbage lines or 'no valid fixed struct'")
 
+    # ------------------------------------------------------------ R8.17 the layout is a function of the file (lift of C06 R6.12 at the reader)
+    # score_file walks the candidate layouts and keeps the first that reaches the highest score.  The
+    # walk order must not come from a randomly seeded hash container (defect F45: a lastlog on which the
+    # 292- and the 296-byte layout tie printed different records from run to run).
+    import hashorder
+    R817 = rep.rule("R8.17", "the candidate layouts are walked in an order that does not change from run to run")
+    sfb_ = prog.body("s4lib::readers::fixedstructreader::FixedStructReader::score_file")
+    cand_ty = [t_ for t_ in (sfb_.local_ty(i_) for i_ in range(1, sfb_.j.get("argc", 0) + 1)) if t_ and "FixedStructType" in t_]
+    if not cand_ty:
+        raise CheckerError("R8.17: score_file takes no collection of FixedStructType")
+    sites817 = hashorder.analyse(prog, only=lambda p_: p_.startswith("s4lib::readers::fixedstructreader::") or p_.startswith("s4lib::data::fixedstruct::"))
+    rep.examined(R817, sfb_.path + "|candidates", sample={"candidate_collection": cand_ty[0], "hash_iterations_in_the_reader": [(x_["fn"].split("::")[-1], x_["line"], x_["verdict"]) for x_ in sites817]})
+    for s_ in sites817:
+        rep.examined(R817, "%s|%s" % (s_["fn"], s_["container"]), sample={"function": s_["fn"], "line": s_["line"], "verdict": s_["verdict"], "why": s_["why"][:2]})
+        if s_["verdict"] == "sensitive":
+            rep.violation(R817, "%s|%s|hash-order" % (s_["fn"], s_["container"]), "%s (line %s) walks a %s (randomly seeded: the order differs from run to run) and %s; "
+                          "which record layout a file is read with then depends on the run" % (s_["fn"], s_["line"], s_["container"], "; ".join(s_["why"][:2])))
+
     return rep.finish(
         "Static necessary-condition check of the accounting-record reader: the ordering index cannot lose records with equal times (key "
         "contains the record offset), the index is walked minimum-first in map order removing the served key, the prefilter loop accepts "
